@@ -1,0 +1,43 @@
+//go:build verif
+
+package preservice
+
+// Contracts for govc (see /verif/DESIGN.md).  Comment-only file.
+
+//@ import dns github.com/miekg/dns
+//@ import filter github.com/AdguardTeam/AdGuardDNS/internal/filter
+//@ import dnsmsg github.com/AdguardTeam/AdGuardDNS/internal/dnsmsg
+//@ import dnsserver github.com/AdguardTeam/AdGuardDNS/internal/dnsserver
+
+//@ immutable Middleware.*
+
+// ---------------------------------------------------------------------------
+// C11: a malformed hash-prefix query is refused rather than forwarded; a TXT
+// query that is not a hash query passes through; a hash query is answered with
+// exactly the hashes the matcher returned.
+
+// What the matcher said last.
+//@ ghost hmErr bool
+//@ ghost hmMatched bool
+//@ ghost hmHashes []string
+//@ interface filter.HashMatcher method MatchByPrefix
+//@   modifies hmErr, hmMatched, hmHashes
+//@   ensures hmErr == (err != nil) && hmMatched == matched && hmHashes == hashes && (err != nil ==> !matched)
+// The text of the TXT answer a response was built from, and response codes.
+//@ ghost txtOf map[*dns.Msg][]string
+//@ func (*dnsmsg.Constructor).NewRespTXT
+//@   modifies txtOf
+//@   ensures err == nil ==> msg != nil && fresh(msg) && txtOf[msg] == strs && msg.Rcode == 0
+//@   ensures err != nil ==> msg == nil
+//@ func (*dnsmsg.Constructor).NewRespRCode
+//@   modifies nothing
+//@   ensures resp != nil && fresh(resp) && resp.Rcode == rc && resp.Id == req.Id
+
+//@ func (*Middleware).respondWithHashes
+//@   property C11
+//@   requires mw != nil && mw.logger != nil && mw.messages != nil && ref(mw.hashMatcher) != 0 && ref(next) != 0 && ref(rw) != 0 && req != nil && ri != nil
+//@   modifies heap, hmErr, hmMatched, hmHashes, txtOf, served, servedReq, servedRW, servedErr, writes, wroteReq, wroteResp, wroteId, wroteRcode, wroteNQ, wroteQ, truncSize
+//@   ensures malformed-is-refused-not-forwarded: hmErr ==> writes[rw] == old(writes[rw]) + 1 && wroteRcode[rw] == 5 && served[next] == old(served[next])
+//@   ensures other-txt-queries-pass-through: !hmErr && !hmMatched ==> served[next] == old(served[next]) + 1 && servedReq[next] == req && servedRW[next] == rw
+//@   ensures hash-queries-get-the-matchers-hashes: !hmErr && hmMatched && err == nil ==> writes[rw] == old(writes[rw]) + 1 && served[next] == old(served[next]) &&
+//@             wroteRcode[rw] == 0 && txtOf[wroteResp[rw]] == hmHashes
